@@ -1,5 +1,6 @@
 // Throw-away fidelity check: the Lean model of Cx.Model.Fast (through cxdrv) vs the real Go functions
-// around the three fixes (ExtractCharClassRanges / isValidCompositePart / anchored literal).
+// around the fixes (ExtractCharClassRanges / isValidCompositePart / anchored literal / BranchDispatcher).
+// `go run .` runs everything, `go run . bd` only the BranchDispatcher part.
 package main
 
 import (
@@ -124,6 +125,201 @@ func hays(alpha string, L int) [][]byte {
 	return out
 }
 
+// ---- BranchDispatcher -------------------------------------------------------------------------------------------
+
+var bdSeeds = []string{`^(foo|bar|baz|qux)`, `^(\d+|UUID|hex)`, `^(alpha|beta|gamma|delta)`, `^(\d+|UUID)`}
+
+// bdPatterns: the pinned patterns and their mutations (deduplicated, parseable ones only).
+func bdPatterns() []string {
+	var out []string
+	seen := map[string]bool{}
+	add := func(q string) {
+		if seen[q] {
+			return
+		}
+		if _, err := syntax.Parse(q, syntax.Perl); err != nil {
+			return
+		}
+		seen[q] = true
+		out = append(out, q)
+	}
+	for _, p := range bdSeeds {
+		inner := p[2 : len(p)-1] // the alternation text
+		add(p)
+		// trailing / leading parts, flags, anchors
+		for _, t := range []string{"e", `\b`, "$", "?", "+", "*", "{2}", `\z`, "()", "(?:)", "x{0}"} {
+			add(p + t)
+		}
+		for _, f := range []string{"(?i)", "(?U)", "(?m)", "(?s)", "(?i)(?U)", `\b`, "x", `\A`, "^"} {
+			add(f + p)
+		}
+		add(`\A(` + inner + `)`)
+		add(`(?m)\A(` + inner + `)`)
+		add(`^(?:` + inner + `)`)
+		add(`^((` + inner + `))`)
+		add(`^(?:(` + inner + `))`)
+		add(`^((?:(((` + inner + `)))))`)
+		add(`(^(` + inner + `))`)
+		add(`^(?P<n>` + inner + `)`)
+		add(`^(` + inner + `)(` + inner + `)`)
+		add(`(` + inner + `)`)
+		add(inner)
+		// empty / optional / overlapping / nested branches
+		for _, b := range []string{"", "x?", "x*", "x{0}", "x{0,0}", "x{0}y", "(?:)", "()", "foo2", "f", "[f-g]x", "[^a]", ".", "xy|xz", "(?:xy|xz)", "(x|y)", "x+", "x+y", "x+?", "x*y", "xy+", "xy*", "xy?", "xy??",
+			"x{2}", "x{2}?", "x{2,3}", "x{2,3}?", "x{2,}", "x{2,}y", "(?:x{2}){3}", "(?:x{1}){3}", "(?:x{1})+", "(?:x?)+", "(x)+", "((x))+y", "(?:xy)+", "(?:xy){2}", "[xy]", "[xy]+", "[xy]{1,2}z", "[x-z]{3}", "[xyé]", "[x-é]+", "[[:alpha:]]",
+			"é", "éa", "aé", "日本", "日+", `\x{fffd}`, `\x{e9}+`, `\x{10ffff}`, `\x{80}`, `\x{7f}`, "(?i:x)", "(?i:1)", "(?i:1é)", "(?i:1€)", "(?i:k)", "(?i:ǆ)", "(?i:1)+", "(?i:[12])", "(?i:[xy])",
+			`x\b`, `\bx`, "x$", "^x", `(?s:.)`, `\d`, `\D`, `\s+`, `\w+`, `\W`, `\n`, `\x00`, `[\x00-\x09]+`, "x|y", "x|", "|"} {
+			add(`^(` + inner + `|` + b + `)`)
+		}
+		add(`^(|` + inner + `)`)
+		add(`^(` + inner + `|)`)
+		// mutations of the repetition
+		for _, r := range []string{`\d+?`, `\d*`, `\d?`, `\d{2}`, `\d{2,3}`, `\d{2,}`, `\d{0}`, `\d{0,0}x`, `\d{2}?`, `\d{1,2}?`, `[0-9a-f]+`, `\d+x`, `x\d+`, `x\d*`, `x\d?`, `(\d)+`, `(?:\d)+`, `(?:\d\d)+`, `\d+\d`, `\d\d+`,
+			`\d{2}\d+`, `\d+\d{0}`, `\d+(?:)`, `\d+()`, `(\d+)`, `((\d)+)`, `[^a]+`, `\d+|\d`, `[0-9é]+`, `[\d]{1,3}`, `\d{3,1000}`, `\d{1000}`, `(?i:\d+)`, `(?U:\d+)`, `(?U:\d+?)`} {
+			add(strings.Replace(p, `\d+`, r, 1))
+		}
+		// mutations of a literal branch
+		for _, r := range []string{"fo+", "f+oo", "(f)(oo)", "f(?:o)o", "f(?:oo|ab)", "[fF]oo", "f[o0]{2}", "f[a-c]x{2,3}", "FOO", "(?i:foo)", "fo(?i:o)", "fo{2}", "fo{0}o", "f.o", `f\.o`, "foo|fab", "é", "aé"} {
+			add(strings.Replace(p, "foo", r, 1))
+			add(strings.Replace(p, "UUID", r, 1))
+		}
+	}
+	// branch-count limits: 127 vs 128 branches with pairwise distinct first bytes
+	mk := func(n int) string {
+		var bs []string
+		for i := 0; i < n; i++ {
+			if i < 126 {
+				bs = append(bs, fmt.Sprintf(`\x%02x0`, i+1))
+			} else if i == 126 {
+				bs = append(bs, "é0")
+			} else {
+				bs = append(bs, "日0")
+			}
+		}
+		return `^(` + strings.Join(bs, "|") + `)`
+	}
+	add(mk(127))
+	add(mk(128))
+	add(`^(a0|b1)`)
+	add(`^(a0)`)
+	add(`(?i)^(1|2)`)
+	add(`(?i)^(12|3€)`)
+	add(`(?i)^(12|3é)`)
+	return out
+}
+
+// bdHays: exhaustive short haystacks over the pattern's own bytes + '\n' + C3 A9 FF, plus words of the pattern.
+func bdHays(p string) [][]byte {
+	var al []byte
+	for _, c := range []byte(p) {
+		if (c >= 'a' && c <= 'z' || c >= 'A' && c <= 'Z' || c >= '0' && c <= '9') && !bytes.Contains(al, []byte{c}) {
+			al = append(al, c)
+		}
+	}
+	special := []byte{'\n', 0xC3, 0xA9, 0xFF}
+	seen := map[string]bool{}
+	var out [][]byte
+	addH := func(h []byte) {
+		if !seen[string(h)] {
+			seen[string(h)] = true
+			out = append(out, append([]byte(nil), h...))
+		}
+	}
+	a1 := al
+	if len(a1) > 8 {
+		a1 = a1[:8]
+	}
+	for _, h := range hays(string(a1)+string(special), 3) {
+		addH(h)
+	}
+	a2 := al
+	if len(a2) > 3 {
+		a2 = a2[:3]
+	}
+	if !bytes.Contains(a2, []byte{'1'}) {
+		a2 = append(append([]byte(nil), a2...), '1')
+	}
+	for _, h := range hays(string(a2)+string(special), 4) {
+		addH(h)
+	}
+	// words: maximal alphanumeric runs of the pattern and simple variations
+	var words []string
+	cur := ""
+	for _, r := range p + "|" {
+		if r >= 'a' && r <= 'z' || r >= 'A' && r <= 'Z' || r >= '0' && r <= '9' || r > 0x7f {
+			cur += string(r)
+		} else if cur != "" {
+			words = append(words, cur)
+			cur = ""
+		}
+	}
+	words = append(words, "123", "1", "12x", "bar", "baz", "UUID", "hex32", "x", "xx", "xxx", "xy", "xyy", "xxy", "foo", "FOO", "Foo", "k", "K", "\u212a", "é", "É", "日本", "日日", "\ufffd", "€", "1€", "1é", "3€", "\x00", "ǆ", "ǅ")
+	for _, w := range words {
+		addH([]byte(w))
+		addH([]byte(w + "x"))
+		addH([]byte(w + "1"))
+		addH([]byte(w + w))
+		addH([]byte(w + "\n"))
+		addH([]byte("x" + w))
+		addH([]byte("\n" + w))
+		if len(w) > 1 {
+			addH([]byte(w[:len(w)-1]))
+			addH([]byte(strings.ToUpper(w)))
+			addH([]byte(strings.ToLower(w)))
+		}
+	}
+	return out
+}
+
+func bdCheck(reqs *[]req, propAdd func(k string, ok bool, detail string)) (npat int, acc []string) {
+	for _, p := range bdPatterns() {
+		re, err := syntax.Parse(p, syntax.Perl)
+		if err != nil {
+			continue
+		}
+		npat++
+		std := regexp.MustCompile(p)
+		w := ast(re)
+		is := nfa.IsBranchDispatchPattern(re)
+		*reqs = append(*reqs, req{"re-bd is - " + w, fmt.Sprint(is), "IsBranchDispatchPattern", p})
+		// the dispatcher exactly as meta/compile.go builds it
+		var d *nfa.BranchDispatcher
+		if re.Op == syntax.OpConcat && len(re.Sub) == 2 && re.Sub[0].Op == syntax.OpBeginText {
+			d = nfa.NewBranchDispatcher(re.Sub[1])
+		}
+		propAdd("IsBranchDispatchPattern == (meta's dispatcher != nil)", is == (d != nil), p)
+		if eng, err := meta.Compile(p); err == nil {
+			propAdd("IsBranchDispatchPattern == (meta strategy is UseBranchDispatch)", is == (eng.Strategy() == meta.UseBranchDispatch), p)
+		}
+		if d == nil {
+			*reqs = append(*reqs, req{"re-bd search 61 " + w, "nil-searcher", "BranchDispatcher.Search", p})
+			continue
+		}
+		acc = append(acc, p)
+		eng, engErr := meta.Compile(p)
+		for _, h := range bdHays(p) {
+			s, e, ok := d.Search(h)
+			got := span(s, e, ok)
+			*reqs = append(*reqs, req{fmt.Sprintf("re-bd search %s %s", hx(h), w), got, "BranchDispatcher.Search", p})
+			*reqs = append(*reqs, req{fmt.Sprintf("re-bd ismatch %s %s", hx(h), w), fmt.Sprint(d.IsMatch(h)), "BranchDispatcher.IsMatch", p})
+			loc := std.FindIndex(h)
+			exp := "nil"
+			if loc != nil {
+				exp = fmt.Sprintf("%d,%d", loc[0], loc[1])
+			}
+			propAdd("accepted ⇒ BranchDispatcher.Search == regexp.FindIndex", got == exp, fmt.Sprintf("%q %q got %s want %s", p, h, got, exp))
+			propAdd("accepted ⇒ BranchDispatcher.IsMatch == regexp.Match", d.IsMatch(h) == std.Match(h), fmt.Sprintf("%q %q", p, h))
+			if engErr == nil {
+				s2, e2, ok2 := eng.FindIndices(h)
+				propAdd("accepted ⇒ meta.FindIndices == regexp.FindIndex", span(s2, e2, ok2) == exp, fmt.Sprintf("%q %q got %s want %s", p, h, span(s2, e2, ok2), exp))
+			}
+			// the reference matcher the theorem is stated against, on the same inputs
+			*reqs = append(*reqs, req{fmt.Sprintf("re-ref 0 %s %s", hx(h), w), exp, "Ref.refFind (Lean) == regexp, accepted BD patterns", p})
+		}
+	}
+	return
+}
+
 func main() {
 	var reqs []req
 	type propStat struct{ n, bad int }
@@ -143,7 +339,11 @@ func main() {
 		}
 	}
 	accepted := map[string][]string{}
-	for _, pt := range pats {
+	runPats := pats
+	if len(os.Args) > 1 && os.Args[1] == "bd" {
+		runPats = nil
+	}
+	for _, pt := range runPats {
 		re, err := syntax.Parse(pt.p, syntax.Perl)
 		if err != nil {
 			fmt.Println("parse error", pt.p, err)
@@ -255,6 +455,8 @@ func main() {
 		}
 	}
 
+	nbd, bdAcc := bdCheck(&reqs, propAdd)
+
 	// run the driver
 	cmd := exec.Command("../.lake/build/bin/cxdrv")
 	var in bytes.Buffer
@@ -296,7 +498,7 @@ func main() {
 	if i != len(reqs) {
 		fmt.Printf("answers %d != requests %d\n", i, len(reqs))
 	}
-	fmt.Printf("patterns: %d   requests: %d\n", len(pats), len(reqs))
+	fmt.Printf("patterns: %d (+ %d BranchDispatcher patterns, %d accepted)   requests: %d\n", len(runPats), nbd, len(bdAcc), len(reqs))
 	var ks []string
 	for k := range stats {
 		ks = append(ks, k)
@@ -316,4 +518,5 @@ func main() {
 	for _, g := range []string{"ccs", "comp", "anch"} {
 		fmt.Printf("  accepted by %s predicate (%d): %q\n", g, len(accepted[g]), accepted[g])
 	}
+	fmt.Printf("  accepted by IsBranchDispatchPattern (%d of %d): %q\n", len(bdAcc), nbd, bdAcc)
 }
